@@ -163,6 +163,11 @@ Definition ev_scan_end (r : nat) (kept : list Z) : ev := EvCli "g_scan_end" (zn 
 Definition seen_in (tr : trace) (s e : nat) (v : Z) : Prop :=
   exists r j i, s <= i <= e /\ slot_at (firstn i tr) r j = v.
 
+Definition ev_retire (p : Z) : ev := EvCli "retire" [p].
+(** some thread announced retire(p) at an index below [n] *)
+Definition retired_before (tr : trace) (n : nat) (p : Z) : Prop :=
+  exists i u, i < n /\ nth_error tr i = Some (u, ev_retire p).
+
 Record Inv (c : cfgT) (g : G) (a : Aux) (tr : trace) : Prop := mkInv {
   i_slot : forall r j, slot_at tr r j = gslot g r j;
   i_zero_unowned : forall r j, r_owner (get_rec g r) = false -> gslot g r j = 0%Z;
@@ -191,5 +196,12 @@ Record Inv (c : cfgT) (g : G) (a : Aux) (tr : trace) : Prop := mkInv {
              forall r j, ~ held (firstn (S d) tr) s r j p;
   i_kept : forall e t r kept s, nth_error tr e = Some (t, ev_scan_end r kept) ->
              last_sb (firstn e tr) t = Some s -> forall p, In p kept -> seen_in tr s e p;
-  i_idle : forall t, resp_last tr t -> idle (view a t)
+  i_idle : forall t, resp_last tr t -> idle (view a t);
+  (* every cell of every retired array went through retire(); the cells a scanning thread works on were
+     retired before its scan began; hence so was everything a scan disposes *)
+  i_retd : forall r p, In p (effc g a r) -> retired_before tr (List.length tr) p;
+  i_retd_scan : forall t sv r s, v_scan (view a t) = Some sv -> v_rec (view a t) = Some r ->
+                  last_sb tr t = Some s -> forall p, In p (effc g a r) -> retired_before tr s p;
+  i_pre : forall d t p, nth_error tr d = Some (t, ev_dispose p) ->
+            exists s, last_sb (firstn d tr) t = Some s /\ retired_before tr s p
 }.
